@@ -15,5 +15,6 @@ ok, out = coq_make([])
 if not ok:
     print(out[-5000:]); sys.exit(1)
 build_driver()
+build_harness_fixed()
 print("setup ok")
 PY
